@@ -39,38 +39,40 @@ def run(ctx):
 # --------------------------------------------------------------------------- R1
 def r1_readers(ctx):
     calls = c02.csv_reader_calls(ctx)
-    by = {f.name: (f, c) for f, c in calls}
+    by = {e.name: (e, f, call, stream, orig) for e, f, call, stream, orig in calls}
     if not {'import_file', 'import_string'} <= set(by):
-        raise AnalysisError('csv.reader call sites of import_file / import_string not found')
-    d1 = c02.reader_dialect(ctx, *by['import_file'])
-    d2 = c02.reader_dialect(ctx, *by['import_string'])
-    f2, c2 = by['import_string']
-    ctx.check(d1 == d2, 'R1', f'{f2.module.relpath}:{c2.lineno}', f2.qualname, 'reader-dialects-differ',
+        missing = sorted({'import_file', 'import_string'} - set(by))
+        e0 = ctx.prog.func(f'{IMP}.{missing[0]}')
+        ctx.violation('R1', e0.loc, e0.qualname, 'rows-not-from-csv-reader', f'{missing} do not feed run() from a csv.reader')
+        return
+    d1 = c02.reader_dialect(ctx, by['import_file'][1], by['import_file'][2])
+    d2 = c02.reader_dialect(ctx, by['import_string'][1], by['import_string'][2])
+    e2, f2, c2, stream2, o2 = by['import_string']
+    ctx.check(d1 == d2, 'R1', f'{f2.module.relpath}:{o2.lineno}', e2.qualname, 'reader-dialects-differ',
               f'both readers use the same csv dialect {d1}', f'file reader dialect {d1} != string reader dialect {d2}')
     # file path: open(..., newline='')
-    f1, c1 = by['import_file']
-    opens = [n for n in walk_local(f1.node) if isinstance(n, ast.Call) and F.is_name(n.func, 'open')]
+    e1 = by['import_file'][0]
+    opens = [n for n in walk_local(e1.node) if isinstance(n, ast.Call) and F.is_name(n.func, 'open')]
     okn = len(opens) == 1 and any(k.arg == 'newline' and isinstance(k.value, ast.Constant) and k.value.value == '' for k in opens[0].keywords)
-    ctx.check(okn, 'R1', f1.loc, f1.qualname, 'file-newline-untranslated',
+    ctx.check(okn, 'R1', e1.loc, e1.qualname, 'file-newline-untranslated',
               "the file is opened with newline='' so that csv itself splits records on \\n, \\r and \\r\\n")
     # string path: what is handed to csv.reader
-    arg = c2.args[0] if c2.args else None
-    env = G.single_assignments(f2.node)
-    origin = G.substitute(arg, env) if arg is not None else None
+    env = G.single_assignments(e2.node)
+    origin = G.substitute(stream2, env) if stream2 is not None else None
     s = src(origin)
-    p = f2.params[1]
+    p = e2.params[1]
     ok = s in (f"io.StringIO({p}, newline='')", f"StringIO({p}, newline='')")
     if not ok and isinstance(origin, ast.Call) and isinstance(origin.func, ast.Attribute) and origin.func.attr == 'splitlines':
         why = ('`str.splitlines()` also splits on \\x0b, \\x0c, \\x1c, \\x1d, \\x1e, \\x85, U+2028 and U+2029: a lyric that contains one '
                'of them gives a different row structure from loads() than from load()')
     else:
         why = f'the string reader iterates over `{s[:80]}`'
-    ctx.check(ok, 'R1', f'{f2.module.relpath}:{c2.lineno}', f2.qualname, 'string-record-splitting',
+    ctx.check(ok, 'R1', f'{f2.module.relpath}:{o2.lineno}', e2.qualname, 'string-record-splitting',
               "the string reader feeds csv with io.StringIO(text, newline=''): records are split exactly like the file reader", why)
-    for f, c in (by['import_file'], by['import_string']):
-        rets = symex.returns(f)
+    for e in (by['import_file'][0], by['import_string'][0]):
+        rets = symex.returns(e)
         ok = len(rets) >= 1 and all(isinstance(v, ast.Call) and src(v.func) == 'self.run' for _, v, _ in rets)
-        ctx.check(ok, 'R1', f.loc, f.qualname, 'reader-feeds-run', f'{f.name} returns self.run(reader)')
+        ctx.check(ok, 'R1', e.loc, e.qualname, 'reader-feeds-run', f'{e.name} returns self.run(reader)')
 
 
 # --------------------------------------------------------------------------- R2
